@@ -32,12 +32,17 @@ impl Prop for C24 {
             let len = rng.range(1, 40);
             let mut next = 1u64;
             for _ in 0..len {
-                match rng.weighted(&[12, 2, 3]) {
+                match rng.weighted(&[12, 2, 3, 1]) {
                     0 => {
                         out.push(format!("enq {}", next));
                         next += 1;
                     }
                     1 => out.push("drain".to_string()),
+                    3 => {
+                        // a modify the server rejects; small sizes, so that it would shrink a filled queue
+                        let r = if rng.chance(2, 3) { rng.range(0, 4) as u64 } else { req(rng) };
+                        out.push(format!("modbad {} {}", r, b(rng.chance(1, 2))))
+                    }
                     _ => {
                         let r = req(rng);
                         out.push(format!("modify {} {}", r, b(rng.chance(1, 2))))
@@ -253,6 +258,48 @@ impl Runner for R {
                         }
                         let (s, q) = self.show();
                         (s, self.oracle(&q, class))
+                    }
+                }
+            }
+            ["modbad", r, d] => {
+                // a ModifyMonitoredItems entry that the server REJECTS (percent deadband is not
+                // supported): whatever size it asked for, the item must be as it was — in particular
+                // the queue must still fit the size the item reports (seed C24c: the smaller size was
+                // stored before the filter was looked at, and the drain was skipped)
+                let req: u64 = r.parse().unwrap();
+                let d = *d == "1";
+                let class = "modify-rejected";
+                let req = MonitoredItemModifyRequest {
+                    monitored_item_id: 1,
+                    requested_parameters: MonitoringParameters {
+                        client_handle: 7,
+                        sampling_interval: 0.0,
+                        filter: ExtensionObject::from_encodable(
+                            ObjectId::DataChangeFilter_Encoding_DefaultBinary,
+                            &DataChangeFilter {
+                                trigger: DataChangeTrigger::StatusValue,
+                                deadband_type: DeadbandType::Percent as u32,
+                                deadband_value: 10f64,
+                            },
+                        ),
+                        queue_size: req as u32,
+                        discard_oldest: d,
+                    },
+                };
+                let res = {
+                    let ss = fx.server_state.read();
+                    let asp = fx.address_space.read();
+                    let it = self.item.as_mut().unwrap();
+                    std::panic::catch_unwind(std::panic::AssertUnwindSafe(|| {
+                        it.modify(&ss, &asp, TimestampsToReturn::Neither, &req)
+                    }))
+                };
+                match res {
+                    Err(_) => ("panic".to_string(), Verdict::fail("modify_total", class, "modify panicked")),
+                    Ok(Ok(_)) => ("ok accepted".to_string(), Verdict::Ok),
+                    Ok(Err(e)) => {
+                        let (s, q) = self.show();
+                        (format!("err {} {}", e.name(), s), self.oracle(&q, class))
                     }
                 }
             }
